@@ -148,6 +148,32 @@ func startlessBranchCases() []*scen.Scenario {
 	return out
 }
 
+// selfEmbeddedCases: a flow that contains itself as a node, with a continuation wired on the flow-as-node: every
+// level that was entered runs to its end and hands its last action to the level that entered it.
+func selfEmbeddedCases() []*scen.Scenario {
+	var out []*scen.Scenario
+	for kind := 0; kind < scen.NumScriptedKinds; kind++ {
+		for depth := 1; depth <= 3; depth++ {
+			var vs []scen.Visit
+			for i := 0; i < depth; i++ {
+				vs = append(vs, scen.Visit{FirstOK: 1, Post: "down"})
+			}
+			vs = append(vs, scen.Visit{FirstOK: 1, Post: "bottom"})
+			up := scen.NodeSpec{Kind: scen.KPlain, N: 1}
+			for i := 0; i <= depth; i++ {
+				up.Visits = append(up.Visits, scen.Visit{FirstOK: 1, Post: "bottom"}) // hands "bottom" on to the level above
+			}
+			nodes := []scen.NodeSpec{
+				{Kind: kind, N: 1, Visits: vs},
+				up,
+				{Kind: scen.KFlow, N: 1, Flow: &scen.FlowSpec{Start: 0, Conns: []scen.Conn{{From: 0, Action: "down", To: 2}, {From: 2, Action: "bottom", To: 1}}}},
+			}
+			out = append(out, &scen.Scenario{Nodes: nodes, Root: 2, Runs: 1, UseFlowRun: depth%2 == 0})
+		}
+	}
+	return out
+}
+
 // cancelInLastAttemptCases: the context is cancelled inside the LAST permitted exec attempt, which fails; with a
 // fallback installed the fallback is still owed (C02), without one the run ends with that attempt's error (C04).
 func cancelInLastAttemptCases(withFB bool) []*scen.Scenario {
